@@ -74,6 +74,7 @@ def gen_plan(rng, tier, i, seed):
     elif scen == "structural":
         o.update(pseudo=True, deletion=True, lfusion=rng.random() < 0.7, rfusion=rng.random() < 0.7)
     world = W.gen_world(rng, 1, [o], dict(L=L, step=step), margin=max(200, L + 60))
+    cut_sites = None
     g = world["genes"][0]
     units = WL._gen_units(rng, g)
     amb = WL._ambiguous_pair(g)
@@ -82,6 +83,24 @@ def gen_plan(rng, tier, i, seed):
         a, b, ab, ref = amb
         units = rng.choice([[{"type": "normal", "allele": a}, {"type": "normal", "allele": b}],
                             [{"type": "normal", "allele": ab}, {"type": "normal", "allele": ref}]])
+        if rng.random() < 0.85:
+            # read length chosen so that reads showing the first site completely end inside the second one
+            # (or on the base an insertion is anchored to): such reads tell nothing about the second site
+            sites = sorted((g["variants"][v]["g"], g["variants"][v]) for al in g["alleles"] if al["name"] == ab
+                           for v in al["vars"] if g["variants"][v]["func"])
+            if len(sites) == 2:
+                (p0, v0), (p1, v1) = sites
+                span = p1 - p0 + 1  # first base of the first site ... first base of the second
+                cand = [span, span + 1] if v1["kind"] == "mnp" else [span]
+                cand = [x for x in cand if 50 <= x <= world["margin"] - 60]
+                if cand:
+                    Lx = rng.choice(cand)
+                    st = next((s_ for s_ in (5, 4, 3, 2) if Lx % s_ == 0 and Lx // s_ >= 20), 1)
+                    if Lx // st <= 60:
+                        world["reads"].update(L=Lx, step=st)
+                        # (both sites on one copy: only then do such reads speak against the planted pair alone)
+                        units = [{"type": "normal", "allele": ab}, {"type": "normal", "allele": ref}]
+                        cut_sites = (p0, p1, 3 if v1["kind"] == "mnp" else 1)
     elif scen == "silent_mnp":
         sm = [a["name"] for a in normal
               if any(g["variants"][v]["kind"] == "mnp" and not g["variants"][v]["func"] for v in a["vars"])]
@@ -132,6 +151,25 @@ def gen_plan(rng, tier, i, seed):
             units = [dict(first), dict(first)] + [dict(first, type="extra") for u in units[2:]]
     smp = {"name": "s0", "genes": {g["name"]: units}, "phase_seed": rng.randint(0, 999),
            "paired": rng.random() < 0.4}
+    if cut_sites:
+        # where the tiling starts is the sequencer's choice: pick a start (phase seed) for which the copy that
+        # carries both sites has a read ending inside the second site and the other copy has none
+        p0, p1, w1 = cut_sites
+        smp["paired"] = False
+
+        def cut_reads(ps):
+            out = [0, 0]
+            for rs, ops, seq, nm in W.sample_reads(world, dict(smp, phase_seed=ps)):
+                end = rs + sum(n for op, n in ops if op in (0, 2)) - 1
+                if rs <= p0 and p1 <= end < p1 + max(1, w1 - 1) + (0 if w1 > 1 else 0) and f"{g['name']}u" in nm and "g." in nm:
+                    out[0 if "u0g" in nm else 1] += 1
+            return out
+
+        for ps in range(smp["phase_seed"], smp["phase_seed"] + 40):
+            c = cut_reads(ps)
+            if c[0] > 0 and c[1] == 0:
+                smp["phase_seed"] = ps
+                break
     return {"world": world, "samples": {"s0": smp}, "build": rng.choice(["hg19", "hg19", "hg38"]), "scenario": scen,
             "hashseed": rng.choice([0, 1, 2, 3]), "advs": [rng.randint(0, 10**9) for _ in range(cfg["advs"])],
             "shuffle": rng.choice([None, rng.randint(0, 10**6)]), "route": rng.choice(["bam", "yml"])}
